@@ -16,5 +16,7 @@ for f in sorted(glob.glob(os.path.join(VERIF, "seeded", "*", "meta.json"))):
         how = "concrete input" if d.get("detected") and "no-failing-input-found" not in d.get("line", "") else (
             "broken obligation (no input found)" if d.get("detected") else ("MISSED" if p == m["property"] else "no alarm (other property)"))
         det.append("%s: %s — %s" % (p, how, (d.get("what") or "")[:90].replace("|", "/")))
+    if m.get("out_of_scope"):
+        det = ["no alarm, correctly: " + m["out_of_scope"][:260]]
     rows.append("| %s | %s | %s |" % (m["name"], title[:110].replace("|", "/"), "; ".join(det) or "not run"))
 print("| seed | change | detected by |\n|---|---|---|\n" + "\n".join(rows))
